@@ -94,6 +94,18 @@ def run(seed_id, props, tier):
             print(seed_id, p, json.dumps(out[p])[:900], flush=True)
     finally:
         unapply()
+    # what was run against this change and what the checks said (committed next to the patch)
+    res_path = os.path.join(d, "result.json")
+    try:
+        res = json.load(open(res_path))
+    except (OSError, ValueError):
+        res = {}
+    head = sh("git -C /repo rev-parse --short HEAD").stdout.strip()
+    for p, o in out.items():
+        res[p] = {"command": "VERIF_REPO=<scratch worktree with patch.diff applied> ./vcheck %s --tier %s" % (p, tier), "repo_head": head,
+                  "exit": o["exit"], "seconds": o["s"], "violation_lines": o["n_violation_lines"], "first_lines": [l[:200] for l in o["lines"][:3]],
+                  "caught": o["exit"] == 1 and o["n_violation_lines"] > 0}
+    json.dump(res, open(res_path, "w"), indent=1)
     return out
 
 
@@ -110,7 +122,10 @@ def main():
         run(a[1], a[2:], tier)
     if a[0] == "all":
         res = {}
+        only = set(a[1:])
         for sid in sorted(os.listdir(os.path.join(VERIF, "seeded"))):
+            if only and sid.split("-")[0] not in only:
+                continue
             if os.path.exists(os.path.join(VERIF, "seeded", sid, "patch.diff")):
                 res[sid] = run(sid, [], tier)
         print(json.dumps(res, indent=1))
